@@ -510,7 +510,7 @@ def run(chk: common.Check):
     cfgs = []
     try:
         for ch in ({"desolvationAllowance": "0.10"}, {"desolvationAllowance": "0.25", "desolvationSurfaceScalingFactor": "0.5"},
-                   {"coulomb_cutoff1": "3.0", "sidechain_interaction": "0.60"}, {"coulomb_diel": "4.0"}):
+                   {"coulomb_cutoff1": "3.0", "sidechain_interaction": "0.60"}, {"coulomb_diel": "4.0"}, {"coulomb_cutoff1": "7.0"}):
             path = custom_cfg(ch)
             cfgs.append(path)
             for n in ["3SGB-subset.pdb"] + (["1HPX.pdb"] if chk.thorough else []):
